@@ -135,7 +135,7 @@ def docPaths : List (List Nat) :=
    [h + 44, h + 1, h + 0, 0, 0], [h + 44, h + 1, h + 1, 0, 0], [h + 44, h + 1, h + 2, 0, 0]]
 
 /-- `do_get_pubkeys` up to the gathered keys (in the order btc, rsk, mst, tbtc, trsk, tmst) -/
-def doGetPubkeys (o : Options) : M (List Bytes) := do
+def doGetPubkeys (o : Options) (keyNorm : Bytes → Option Bytes := some) : M (List Bytes) := do
   if !o.noUnlock then
     M.tryCatchIf (doUnlock o) (fun _ => true) (fun _ => adminError)
   M.emit .sleep
@@ -143,9 +143,13 @@ def doGetPubkeys (o : Options) : M (List Bytes) := do
   let mode ← getCurrentMode
   if mode == Mode_UNKNOWN.toNat || mode == Mode_BOOTLOADER.toNat then adminError
   let keys ← docPaths.mapM getPublicKey
-  -- (the keys are written to disk here)
-  disposeHsm
-  pure keys
+  -- the keys are written to disk here, re-encoded uncompressed (`keyNorm`: python-ecdsa's reading of
+  -- the device's answer, an uninterpreted input); an answer that is no curve point is "Error writing output"
+  match keys.mapM keyNorm with
+  | none => adminError
+  | some ks =>
+    disposeHsm
+    pure ks
 
 end Admin
 end PowHsm
